@@ -573,6 +573,8 @@ class ServeMpsMedia(MediaRequestBase):
             origin_time += seg_time
 
         if seg_num is not None:
+            if seg_num < representation.start_number:
+                raise ValueError('Segment before the start of the Period')
             mod_seg += seg_num - representation.start_number
             if mod_seg > representation.num_media_segments:
                 logging.warning(
@@ -584,4 +586,7 @@ class ServeMpsMedia(MediaRequestBase):
                 # origin_time += representation.mediaDuration
                 # mod_seg -= representation.num_media_segments
                 # assert mod_seg > 0
+        if seg_num is None:
+            # a request by $Time$: number the fragment by its position in the media
+            seg_num = mod_seg
         return SegmentPosition(mod_seg, origin_time, seg_num)
